@@ -85,24 +85,25 @@ type event struct {
 }
 
 type sim struct {
-	plan   Plan
-	in     *bufio.Reader
-	out    *os.File
-	tr     *os.File
-	buf    strings.Builder
-	nLine  int // lines received so far
-	nChg   int // change lines seen in config mode
-	asa    *asam.State
-	ios    *iosm.State
-	saved  string
-	mode   string // "", "enable", "config"
-	reload bool
-	dirty  bool // config modified since last save
-	routes []string
-	ipt    string
-	lastRC int
-	pager  bool
-	width  bool
+	plan    Plan
+	in      *bufio.Reader
+	out     *os.File
+	tr      *os.File
+	buf     strings.Builder
+	nLine   int    // lines received so far
+	nChg    int    // change lines seen in config mode
+	curLine string // line being handled (for faults that depend on it)
+	asa     *asam.State
+	ios     *iosm.State
+	saved   string
+	mode    string // "", "enable", "config"
+	reload  bool
+	dirty   bool // config modified since last save
+	routes  []string
+	ipt     string
+	lastRC  int
+	pager   bool
+	width   bool
 }
 
 func (s *sim) log(e event) {
@@ -339,6 +340,11 @@ func (s *sim) outputFault(n int, kind string) string {
 	case "garbage":
 		s.log(event{Ev: "fault", N: n, Res: "fault:garbage"})
 		return "%%% something unexpected happened\n"
+	case "warnerror":
+		// A warning that the tool tolerates for this kind of command,
+		// followed by the error text of a rejected command.
+		s.log(event{Ev: "fault", N: n, Res: "fault:warnerror"})
+		return toleratedWarning(s.plan.Family, s.curLine) + errText(s.plan.Family)
 	case "info":
 		s.log(event{Ev: "fault", N: n, Res: "perturb:info"})
 		return "INFO: nothing to worry about\n"
@@ -349,6 +355,21 @@ func (s *sim) outputFault(n int, kind string) string {
 		s.log(event{Ev: "fault", N: n, Res: "fault:badecho"})
 	}
 	return ""
+}
+
+// toleratedWarning is a warning text that devices print for the command and
+// that does not mean rejection.
+func toleratedWarning(family, line string) string {
+	l := strings.TrimPrefix(line, "no ")
+	switch {
+	case family == "asa" && strings.HasPrefix(l, "access-list"):
+		return "WARNING: Same object-group is used more than once in one config line. This config is redundant. MAC address of one of the objects might not be resolved.\n"
+	case family == "asa" && strings.HasPrefix(l, "crypto map"):
+		return "WARNING: The crypto map entry is incomplete!\n"
+	case family == "asa" && strings.HasPrefix(l, "tunnel-group"):
+		return "WARNING: L2L tunnel-groups that have names which are not an IP\naddress may only be used if the tunnel authentication\nmethod is Digital Certificates and/or The peer is\nconfigured to use Aggressive Mode\n"
+	}
+	return "WARNING: somewhat unusual\n"
 }
 
 const reloadBanner = "\n\n\n\x07***\n*** --- SHUTDOWN %s ---\n***\n"
@@ -412,6 +433,7 @@ func (s *sim) ciscoSession() {
 
 // handleCisco processes one command line; returns true when the session ends.
 func (s *sim) handleCisco(n int, line, kind string) bool {
+	s.curLine = line
 	ios := s.plan.Family == "ios"
 	lookup := line
 	hasDo := false
@@ -423,7 +445,7 @@ func (s *sim) handleCisco(n int, line, kind string) bool {
 		!(s.plan.Family == "asa" && lookup == "terminal width 511") && !s.iosPrepare(lookup)
 	if kind == "" && isChange {
 		for _, f := range s.plan.Faults {
-			if f.Chg != nil && *f.Chg == s.nChg && (f.Kind == "error" || f.Kind == "garbage") {
+			if f.Chg != nil && *f.Chg == s.nChg && (f.Kind == "error" || f.Kind == "garbage" || f.Kind == "warnerror") {
 				kind = f.Kind
 			}
 		}
@@ -485,7 +507,7 @@ func (s *sim) handleCisco(n int, line, kind string) bool {
 	res := "readonly"
 	msg := ""
 	switch {
-	case kind == "error" || kind == "garbage":
+	case kind == "error" || kind == "garbage" || kind == "warnerror":
 		// The device rejected the line: no effect.
 		res = "fault:" + kind
 		if isChange {
@@ -679,13 +701,14 @@ func (s *sim) linuxSession() {
 			return
 		}
 		n := s.nLine - 1
+		s.curLine = line
 		s.echo(line, kind)
 		out := s.outputFault(n, kind)
 		res := "readonly"
 		rc := 0
 		f := strings.Fields(line)
 		switch {
-		case kind == "error" || kind == "garbage":
+		case kind == "error" || kind == "garbage" || kind == "warnerror":
 			res, rc = "fault:"+kind, 2
 		case kind == "status":
 			s.log(event{Ev: "fault", N: n, Res: "fault:status"})
